@@ -37,7 +37,7 @@ Proof. reflexivity. Qed.
 Lemma prefixb_refl : forall a, prefixb a a = true.
 Proof. intros a. rewrite <- (app_nil_r a) at 2. apply prefixb_app. Qed.
 Lemma witem_eqb_refl : forall w, witem_eqb w w = true.
-Proof. intros [t|b|]; cbn; [apply N.eqb_refl | apply bytes_eqb_refl | reflexivity]. Qed.
+Proof. intros [t|b| |]; cbn; [apply N.eqb_refl | apply bytes_eqb_refl | reflexivity | reflexivity]. Qed.
 Lemma call_eqb_refl : forall c, call_eqb c c = true.
 Proof. intros [c|c|]; cbn; try apply N.eqb_refl; reflexivity. Qed.
 Lemma list_eqb_refl : forall A (eqb : A -> A -> bool), (forall x, eqb x x = true) -> forall l, list_eqb eqb l l = true.
@@ -160,6 +160,7 @@ Definition trl_pc (ro : role) : pc := match ro with Server => SRecvTrl | Client 
 Definition send_pc (p : pc) : Prop := p = SSendResp \/ p = SSendData \/ p = SSendTrl \/ p = SFinish.
 
 Definition trl_items (c : rcfg) : list witem := match c_trl c with Some _ => [WTrailers] | None => [] end.
+Definition grease_items (c : rcfg) : list witem := if c_grease c then [WGrease] else [].
 Definition sent (p : pc) (c : rcfg) : list witem * list call :=
   match p with
   | SSendData => ([WHeaders STATUS_OK], [])
@@ -168,7 +169,7 @@ Definition sent (p : pc) (c : rcfg) : list witem * list call :=
   | CSendData => ([WHeaders 0], [])
   | CSendTrl => ([WHeaders 0; WData (c_body c)], [])
   | CFinish => ([WHeaders 0; WData (c_body c)] ++ trl_items c, [])
-  | CRecvResp | CRecv | CRecvTrl => ([WHeaders 0; WData (c_body c)] ++ trl_items c, [CFin])
+  | CRecvResp | CRecv | CRecvTrl => ([WHeaders 0; WData (c_body c)] ++ trl_items c ++ grease_items c, [CFin])
   | _ => ([], [])
   end.
 Definition sent_ok (r : req) : Prop :=
@@ -267,6 +268,18 @@ Proof.
   - apply sat1_err; [exact Hc | exact Hp | exact I].
 Qed.
 
+Lemma env_unk_allowed : forall c E S l x data g cs txs,
+  classify_script c S = Some l -> e_stop E = Some x -> c_unk c = true ->
+  prefixb data (all_data S) = true -> filter is_abort cs = [] ->
+  exists al, classify c E S = Some al /\
+    sat {| ob_out := OStreamErr KUndefined None; ob_data := data; ob_trl := g; ob_calls := cs; ob_tx := txs |} al = true.
+Proof.
+  intros c E S l x data g cs txs Hl Hs Hu Hp Hc. unfold classify. rewrite Hl. eexists. split; [reflexivity|].
+  eapply sat_intro.
+  - apply in_or_app; right. unfold classify_env. rewrite Hs, Hu. right; left; reflexivity.
+  - apply sat1_err; [exact Hc | exact Hp | exact I].
+Qed.
+
 Lemma env_limit_allowed : forall c E S l data g cs txs,
   classify_script c S = Some l ->
   over (c_hsize c) (e_limit E) = true \/ (exists z, c_trl c = Some z /\ over z (e_limit E) = true) \/
@@ -357,6 +370,17 @@ Proof.
   eapply done_intro; [exact Hal | exact Hsat].
 Qed.
 
+Lemma finish_unk : forall E S s r f a x t cs l,
+  classify_script (cfg r) S = Some l -> stop_ok E r -> stopped r = Some x -> c_unk (cfg r) = true ->
+  prefixb (acc r) (all_data S) = true -> filter is_abort cs = [] ->
+  step_post E S s r (s, finish_with r f (RErr a SUndefined) t cs, Stop).
+Proof.
+  intros E S s r f a x t cs l Hl Hso Hst Hu Hp Hc. unfold step_post.
+  repeat split; try reflexivity; [|stop_goal].
+  destruct (env_unk_allowed (cfg r) E S l x (acc r) (gottrl r) cs t Hl (Hso _ Hst) Hu Hp Hc) as [al [Hal Hsat]].
+  eapply done_intro; [exact Hal | exact Hsat].
+Qed.
+
 Lemma finish_limit : forall E S s r f a t cs l,
   classify_script (cfg r) S = Some l ->
   over (c_hsize (cfg r)) (e_limit E) = true \/ (exists z, c_trl (cfg r) = Some z /\ over z (e_limit E) = true) \/
@@ -426,9 +450,30 @@ Proof.
     + unfold step_post. repeat split; try reflexivity; [|stop_goal].
       apply (Hnext CFinish (tx r) (calls r)); [exact I | cbn; unfold trl_items; rewrite Hct, Htx; reflexivity | exact Hcs].
   - (* finish *)
-    unfold step_post. repeat split; try reflexivity.
-    + apply Hnext; [exact I | exact Htx | cbn; rewrite Hcs; reflexivity].
-    + intros _. unfold pot. cbn. rewrite Hpc. cbn. lia.
+    assert (Hfin : forall t0, t0 = tx r ++ grease_items (cfg r) ->
+       step_post E S s r
+         (match stopped r with
+          | Some c =>
+              let '(sh', e) := if c_unk (cfg r) then on_stream_unknown s else on_stream_terminated c s in
+              if finish_err_via_hq then (sh', finish_with r (fs r) (RErr AFinish e) t0 (calls r), Stop)
+              else let '(sh2, e2) := conn_error_on_stream H3_INTERNAL_ERROR s in
+                   (sh2, finish_with r (fs r) (RErr AFinish e2) t0 (calls r), Stop)
+          | None => (s, upd r (fs r) CRecvResp (acc r) t0 (calls r ++ [CFin]) None, Continue)
+          end)).
+    { intros t0 Ht0. destruct (stopped r) as [c|] eqn:Hst.
+      - rewrite on_stream_unknown_eq, on_stream_terminated_eq. change finish_err_via_hq with true.
+        destruct (c_unk (cfg r)) eqn:Hu; cbn iota.
+        + eapply finish_unk; [exact Hl | exact Hso | exact Hst | exact Hu | exact Hpfx | rewrite Hcs; reflexivity].
+        + eapply finish_stop; [exact Hl | exact Hso | exact Hst | exact Hpfx | rewrite Hcs; reflexivity].
+      - unfold step_post. repeat split; try reflexivity.
+        + apply Hnext; [exact I | cbn; rewrite Ht0, Htx, <- app_assoc; reflexivity | cbn; rewrite Hcs; reflexivity].
+        + intros _. unfold pot. cbn. rewrite Hpc. cbn. lia. }
+    destruct (c_grease (cfg r)) eqn:Hg.
+    + destruct (write_err_cases r s) as [[Hst Hw]|[c [Hst Hw]]]; rewrite Hw.
+      * apply Hfin. unfold grease_items. rewrite Hg. reflexivity.
+      * change finish_err_via_hq with true. cbn iota.
+        eapply finish_stop; [exact Hl | exact Hso | exact Hst | exact Hpfx | rewrite Hcs; reflexivity].
+    + apply Hfin. unfold grease_items. rewrite Hg, app_nil_r. reflexivity.
 Qed.
 
 Lemma finish_script : forall E S s r f rs t cs l a,
@@ -816,10 +861,32 @@ Proof.
            eapply finish_stop; [exact Hcl' | exact Hso | exact Hst | exact Hpfx | rewrite Hcs; reflexivity].
     + unfold step_post. repeat split; try reflexivity; [|stop_goal].
       apply (Hnext SFinish (tx r)); [right; right; right; reflexivity | cbn; unfold trl_items; rewrite Hct, Htx; reflexivity | reflexivity].
-  - eapply finish_script; [exact Hcl' | left; reflexivity|].
-    cbn [sat1 outcome_of ob_out ob_data ob_tx ob_calls ob_trl]. rewrite Hacc, Htx, Hcs.
-    unfold healthy_tx, trl_items. rewrite Hro. cbn [app].
-    rewrite bytes_eqb_refl, (list_eqb_refl _ _ witem_eqb_refl), (list_eqb_refl _ _ call_eqb_refl), Bool.eqb_reflx. reflexivity.
+  - (* finish *)
+    assert (Hfin : forall t0, t0 = tx r ++ grease_items (cfg r) ->
+       step_post E S s r
+         (match stopped r with
+          | Some c =>
+              let '(sh', e) := if c_unk (cfg r) then on_stream_unknown s else on_stream_terminated c s in
+              if finish_err_via_hq then (sh', finish_with r (fs r) (RErr AFinish e) t0 (calls r), Stop)
+              else let '(sh2, e2) := conn_error_on_stream H3_INTERNAL_ERROR s in
+                   (sh2, finish_with r (fs r) (RErr AFinish e2) t0 (calls r), Stop)
+          | None => (s, finish_with r (fs r) ROk t0 (calls r ++ [CFin]), Stop)
+          end)).
+    { intros t0 Ht0. destruct (stopped r) as [c|] eqn:Hst.
+      - rewrite on_stream_unknown_eq, on_stream_terminated_eq. change finish_err_via_hq with true.
+        destruct (c_unk (cfg r)) eqn:Hu; cbn iota.
+        + eapply finish_unk; [exact Hcl' | exact Hso | exact Hst | exact Hu | exact Hpfx | rewrite Hcs; reflexivity].
+        + eapply finish_stop; [exact Hcl' | exact Hso | exact Hst | exact Hpfx | rewrite Hcs; reflexivity].
+      - eapply finish_script; [exact Hcl' | left; reflexivity|].
+        cbn [sat1 outcome_of ob_out ob_data ob_tx ob_calls ob_trl]. rewrite Hacc, Ht0, Htx, Hcs.
+        unfold healthy_tx, trl_items, grease_items. rewrite Hro. cbn [app].
+        rewrite bytes_eqb_refl, (list_eqb_refl _ _ witem_eqb_refl), (list_eqb_refl _ _ call_eqb_refl), Bool.eqb_reflx. reflexivity. }
+    destruct (c_grease (cfg r)) eqn:Hg.
+    + destruct (write_err_cases r s) as [[Hst Hw]|[c [Hst Hw]]]; rewrite Hw.
+      * apply Hfin. unfold grease_items. rewrite Hg. reflexivity.
+      * change finish_err_via_hq with true. cbn iota.
+        eapply finish_stop; [exact Hcl' | exact Hso | exact Hst | exact Hpfx | rewrite Hcs; reflexivity].
+    + apply Hfin. unfold grease_items. rewrite Hg, app_nil_r. reflexivity.
 Qed.
 
 Lemma step_post_idle : forall E S s r, phase E S r -> step_post E S s r (s, r, Stop).
@@ -1272,6 +1339,11 @@ Proof.
   intros c s. unfold on_stream_terminated. destruct hq_term_stores; [|left; reflexivity].
   match goal with |- context[store ?x s] => pose proof (store_mono x s) as H; destruct (store x s) end. exact H.
 Qed.
+Lemma osu_mono : forall s, sh_mono s (fst (on_stream_unknown s)).
+Proof.
+  intros s. unfold on_stream_unknown. destruct hq_unknown_stores; [|left; reflexivity].
+  match goal with |- context[store ?x s] => pose proof (store_mono x s) as H; destruct (store x s) end. exact H.
+Qed.
 Lemma fse_quic_mono : forall c s, sh_mono s (fst (fse_quic c s)).
 Proof. intros c s. unfold fse_quic. destruct fse_quic_via_hq; [apply ost_mono | apply ces_mono]. Qed.
 Lemma fse_end_mono : forall s, sh_mono s (fst (fse_end s)).
@@ -1292,6 +1364,10 @@ Ltac mono_cases :=
       let H := fresh "Hm" in pose proof (fse_end_mono s) as H; destruct (fse_end s)
   | |- context[match write_err ?r ?s with _ => _ end] =>
       let H := fresh "Hm" in pose proof (write_err_mono r s) as H; destruct (write_err r s) as [[? ?]|]
+  | |- context[match on_stream_unknown ?s with _ => _ end] =>
+      let H := fresh "Hm" in pose proof (osu_mono s) as H; destruct (on_stream_unknown s)
+  | |- context[match on_stream_terminated ?c ?s with _ => _ end] =>
+      let H := fresh "Hm" in pose proof (ost_mono c s) as H; destruct (on_stream_terminated c s)
   | |- context[match (if ?b then _ else _) with _ => _ end] => destruct b
   | |- context[match ?x with _ => _ end] => destruct x
   end.
@@ -1511,6 +1587,8 @@ Proof. intros r s. unfold write_err. destruct (stopped r); reflexivity. Qed.
 Ltac indep_split :=
   repeat match goal with
   | H : context[fse_quic ?c ?s] |- _ => rewrite !fse_quic_eq in *
+  | H : context[on_stream_terminated ?c ?s] |- _ => rewrite !on_stream_terminated_eq in *
+  | H : context[on_stream_unknown ?s] |- _ => rewrite !on_stream_unknown_eq in *
   | H : context[match conn_error_on_stream ?c ?s with _ => _ end] |- _ =>
       let E := fresh "E" in destruct (conn_error_on_stream c s) eqn:E
   | H : context[match fse_end ?s with _ => _ end] |- _ =>
@@ -1571,7 +1649,7 @@ Lemma exec_pc_indep : forall s s2 r r' st,
 Proof.
   intros s s2 r r' st H Hrel.
   pose proof Hrel as (Hcl & Hpm & Hcell).
-  unfold exec_pc in *. rewrite ?write_err_eq, ?fse_quic_eq in *. rewrite Hcl, Hpm.
+  unfold exec_pc in *. rewrite ?write_err_eq, ?fse_quic_eq, ?on_stream_unknown_eq in *. rewrite Hcl, Hpm.
   destruct (pcr r); indep_pc s r H Hrel.
 Qed.
 
@@ -1741,11 +1819,11 @@ Proof.
   - class_split; cls_finish.
   - class_split; cls_finish.
   - class_split; cls_finish.
-  - cls_finish.
   - class_split; cls_finish.
   - class_split; cls_finish.
   - class_split; cls_finish.
-  - cls_finish.
+  - class_split; cls_finish.
+  - class_split; cls_finish.
   - (* CRecvResp *)
     destruct (poll_next (fs r)) as [[| |k|t|c| | |m] f1] eqn:Hp.
     + cbn. split; [reflexivity|]. right; right; right.
